@@ -51,7 +51,7 @@ def strategy(tier):
 
 
 def hyp_examples(tier):
-    return 500 if tier == "quick" else 6000
+    return 1500 if tier == "quick" else 8000
 
 
 def enum_units(tier, seed):
